@@ -63,6 +63,7 @@ func c14Cases() []c14Prog {
 	add("print-data-case-keys", `{{ m }}|{{ k }}`, caseData)
 	add("dump-data-case-keys", `@dump(m, k)`, caseData)
 	add("case-keys-failing", `{{ {id: zz, ID: yy} }}`, nil)
+	add("loops-after-failing-loops", `@each(i in [1, 2, 3])({{ i }})@end|@for(j = 0; j < 2; j++)[{{ j }}]@end`, nil)
 	// dumping
 	add("dump-literal", `@dump({a: 1, b: "s", c: [1, 2]})`, nil)
 	add("dump-data", `@dump(o, st)`, objData)
@@ -144,6 +145,12 @@ func c14Cases() []c14Prog {
 			return m
 		})
 	}
+	// several files with link-time faults (no syntax error anywhere)
+	tree("two-files-unknown-components", map[string]string{"a.tw": `@component("nope1")`, "b.tw": `@component("nope2")`, "index.tw": "ok"}, "index", nil)
+	tree("two-files-undefined-inserts", map[string]string{"a.tw": `@use("lay")@insert("x", "1")`, "b.tw": `@use("lay")@insert("y", "2")`, "lay.tw": `@reserve("r")`, "index.tw": "ok"}, "index", nil)
+	tree("three-files-mixed-link-faults", map[string]string{"a.tw": `@component("c")@slot("zz")s@end@end`, "b.tw": `@use("lay")@insert("y", "2")`, "d.tw": `@component("nope")`, "c.tw": `@slot("n")`, "lay.tw": `@reserve("r")`, "index.tw": "ok"}, "index", nil)
+	tree("two-files-missing-layouts", map[string]string{"a.tw": `@use("nolay1")`, "b.tw": `@use("nolay2")`, "index.tw": "ok"}, "index", nil)
+	tree("two-files-duplicate-slots", map[string]string{"a.tw": `@component("c")@slot("n")1@end@slot("n")2@end@end`, "b.tw": `@component("c")@slot 1@end@slot 2@end@end`, "c.tw": `@slot("n")@slot`, "index.tw": "ok"}, "index", nil)
 	tree("many-pages-ok", map[string]string{"a.tw": "A", "b.tw": "B", "c.tw": "C", "index.tw": `@component("a")@component("b")@component("c")`}, "index", nil)
 	tree("page-prints-objects", map[string]string{"index.tw": `@use("lay")@insert("a"){{ {k: 1, j: 2, i: 3} }}@end`, "lay.tw": `[@reserve("a")]`}, "index", objData)
 	return out
@@ -265,6 +272,25 @@ func c14Legs(c *Ctx, p c14Prog, t *Tree) (sig, expected, observed string, bad bo
 			c.Count(name, 1)
 		}
 	}
+	if t == nil {
+		// string API: the same source evaluated repeatedly with other (failing) evaluations in between
+		var data map[string]any
+		if p.data != nil {
+			data = p.data()
+		}
+		firstR := ""
+		for r := 0; r < 3; r++ {
+			o := c14Execute(p, nil)
+			count("same-source_repetitions")
+			if r == 0 {
+				firstR = o
+			} else if o != firstR {
+				return "repetition-differs-after-other-calls/" + p.name, "identical outcome on every repetition within one process", "first: " + clip(firstR, 200) + "  ||  later: " + clip(o, 200), true
+			}
+			textwire.EvaluateString("@each(i in [1, 2])<{{ i }}>@if(loop.last){{ undefinedNoise }}@end@end", data)
+			textwire.EvaluateString("@for(i = 0; i < 3; i++)[{{ i }}]{{ 1 / (1 - i) }}@end", nil)
+		}
+	}
 	if t != nil {
 		if tpl, lo := t.load(); lo.Kind == KOut {
 			var data map[string]any
@@ -283,6 +309,9 @@ func c14Legs(c *Ctx, p c14Prog, t *Tree) (sig, expected, observed string, bad bo
 				// other calls between the repetitions
 				textwire.EvaluateString("noise {{ 1 }}", nil)
 				textwire.EvaluateString("{{ undefinedNoise }}", nil)
+				// renders that fail inside a loop after an earlier pass has produced output
+				textwire.EvaluateString("@each(i in [1, 2])<{{ i }}>@if(loop.last){{ undefinedNoise }}@end@end", nil)
+				textwire.EvaluateString("@for(i = 0; i < 3; i++)[{{ i }}]{{ 1 / (1 - i) }}@end", nil)
 				render(tpl, "no-such-template", nil)
 				respond(tpl, "no-such-template", nil)
 			}
